@@ -45,7 +45,8 @@ MANIFEST = dict(
     'name.ext, name~00.ext, ... (C14.fresh_name, candidates_distinct); one write touches no other file (write_untouched); k successive outputs create k '
     'pairwise different new names and leave every earlier file untouched, by induction over histories (k_writes_distinct); in arbitrary histories with '
     'deletions and backups no later output modifies a file and every produced name is new at that moment (history_never_modifies, produced_name_is_new); '
-    'create_backup (backup_fresh). Parameter file: decode(encode v) = v for every value of the declared kind (param_roundtrip, bool coded "True"/"False", '
+    'k outputs of one model are named name.ext, name~00.ext, ... in order and the repaired recycling reads the last one (same_name_sequence, recycle_reads_last; '
+    'the string order used today is wrong beyond 101 files: recycle_lex_not_latest); create_backup (backup_fresh). Parameter file: decode(encode v) = v for every value of the declared kind (param_roundtrip, bool coded "True"/"False", '
     'bool_spellings), lifted to every admitted value of every entry of the GENERATED default table (table_roundtrip + Generated.defaultParams_ok by decide); '
     'dump-then-read returns exactly the dumped set for all keys (file_roundtrip, keys_preserved, unknown_entry_ignored; Generated.default_file_roundtrip). '
     'Reports list every parameter (reports_list_every_parameter; F12 label = first ten characters: f12_label_short / f12_label_collision); statistics after '
@@ -1245,6 +1246,8 @@ def check_recycle(ctx, res, case):
     def cb(ans):
         if ans.get('latest') != last[0]:
             res.diverge('Files.recycleChoice (repaired choice) vs the file written last', case, ans.get('latest'), last[0], where=W_RECYCLE if case['n'] > 101 else '')
+        if not case.get('other_files') and ans.get('lenlex') != ans.get('latest'):
+            res.diverge('order (length, name) of the proposed repair vs the largest index of the sequence', case, ans.get('lenlex'), ans.get('latest'))
         # the real code follows either the model of the code as it is (string order) or the repaired choice
         if got[2] not in (ans.get('lex'), ans.get('latest')):
             res.diverge('file loaded by estimate(recycle=True) vs Files.recycleChoiceLex / Files.recycleChoice', case, [ans.get('lex'), ans.get('latest')], got[2])
